@@ -169,14 +169,21 @@ def _kernspecial(g, scale):
     r = g.r
     for _ in range(max(1, int(1 * scale))):
         sets = special_sets(g)
-        for a in sets:
-            for b in r.sample(sets, 3):
+        for ia, a in enumerate(sets):
+            for ib, b in enumerate(sets):
                 if card(a) == 0 or card(b) == 0:
+                    continue
+                shortcut = ia < 2 or ib < 2          # an operand is full / full-minus-one: every kernel has a special branch
+                if not shortcut and r.random() < 0.6:
                     continue
                 for ka in ("A", "B", "R"):
                     for kb in ("A", "B", "R"):
+                        if card(a) > 4096 and ka == "A" or card(b) > 4096 and kb == "A":
+                            continue
+                        if 0 < card(a) <= 4096 and ka == "B" or 0 < card(b) <= 4096 and kb == "B":
+                            continue
                         ca, cb = render(g, a, ka), render(g, b, kb)
-                        for op in r.sample(BIN, 3):
+                        for op in (BIN if shortcut else r.sample(BIN, 3)):
                             g.emit("kern %s %s %s" % (op, ca, cb))
                             g.count("kspecial:" + op)
 
@@ -291,6 +298,54 @@ def ivs_union(a, b):
         else:
             out.append((x, y))
     return out
+
+
+def thresh_cases(g):
+    """operand pairs whose and / or / xor / andNot has cardinality exactly T in {4095, 4096, 4097}"""
+    r = g.r
+    T = r.choice([4095, 4096, 4096, 4097])
+    k = min(r.choice([1, 5, 300, 5000]), 5000)
+    base = r.choice([0, 7, 1000, 20000])
+    R = interval_set(r, base, T, r.choice([1, 3, 40]))
+    D = interval_set(r, R[-1][1] + 20, k, r.choice([1, 2, 10]))
+    E = interval_set(r, D[-1][1] + 20, r.choice([1, 50, 4000]), r.choice([1, 4]))
+    cut = r.randrange(1, max(2, len(R)))
+    return T, R, D, [
+        ("andnot", ivs_union(R, D), ivs_union(D, E)),
+        ("and", ivs_union(R, D), ivs_union(R, E)),
+        ("or", R[:cut] + R[cut:][:1], R[cut:] if R[cut:] else R),
+        ("xor", ivs_union(R[:cut], D), ivs_union(R[cut:], D) if R[cut:] else D)]
+
+
+@suite("thresh")
+def _thresh(g, scale):
+    """bitmap-level version of kernthresh: results landing exactly on the array/bitmap threshold, then serialized,
+    validated and round-tripped (C01 / C05 / C09 / C14)"""
+    r = g.r
+    for _ in range(int(10 * scale)):
+        T, R, D, cases = thresh_cases(g)
+        key = g.key()
+        for op, a, b in cases:
+            for ka in ("A", "B", "R"):
+                ca = wf_render(g, a, ka)
+                if ca is None:
+                    continue
+                kb = r.choice(["A", "B", "R"])
+                cb = wf_render(g, b, kb)
+                if cb is None:
+                    continue
+                x, y, z = g.fresh(), g.fresh(), g.fresh()
+                g.emit("mkrepr %s cow=0;%d:%s" % (x, key, ca))
+                g.emit("mkrepr %s cow=0;%d:%s" % (y, key, cb))
+                g.emit("%s %s %s %s" % (op, z, x, y))
+                g.emit("wf %s" % z)
+                g.emit("ser %s" % z)
+                g.emit("size %s" % z)
+                g.emit("i%s %s %s" % (op, x, y))
+                g.emit("wf %s" % x)
+                g.emit("ser %s" % x)
+                g.emit("rd %s %s %s" % (g.fresh(), r.choice(["readfrom", "frombuffer", "unmarshal"]), x))
+                g.count("thresh:%s:%d" % (op, T))
 
 
 @suite("kernthresh")
